@@ -2,11 +2,12 @@
 # mutate.sh <patch.diff> <Cnn> [tier]: applies the patch to a scratch copy of the repository (outside /repo and
 # /verif), runs the property's check against that copy (VERIF_REPO), prints the outcome, removes the copy.
 # exit 0 if the check reported a violation (mutant caught), 1 if it passed (missed), 2 on machinery failure.
+V=$(cd "$(dirname "$0")/.." && pwd)
 P=$(readlink -f "$1"); ID=$2; TIER=${3:-quick}
 D=$(mktemp -d /tmp/vmut.XXXXXX)
 cp /repo/cJSON.c /repo/cJSON.h /repo/cJSON_Utils.c /repo/cJSON_Utils.h $D/
 ( cd $D && git init -q . && ( git apply --unsafe-paths "$P" 2>/dev/null || patch -s -p1 --fuzz=3 < "$P" ) ) || { echo "patch does not apply"; rm -rf $D; exit 2; }
-OUT=$(cd /verif && VERIF_REPO=$D ./tools/check $ID $TIER 2>&1); RC=$?
+OUT=$(cd $V && VERIF_REPO=$D ./tools/check $ID $TIER 2>&1); RC=$?
 echo "$OUT" | grep -E "^VIOLATION|^check:|^KNOWN" | head -${MUT_LINES:-4}
-rm -rf $D /verif/out/$ID/obj-* /verif/out/$ID/vdrv-*
+rm -rf $D $V/out/$ID/obj-* $V/out/$ID/vdrv-*
 case $RC in 1) echo "CAUGHT $ID $(basename $(dirname $P))/$(basename $P)"; exit 0;; 0) echo "MISSED $ID $P"; exit 1;; *) echo "MACHINERY rc=$RC"; exit 2;; esac
